@@ -1238,6 +1238,13 @@ async fn run_matrix(fx: &Fixture, table: &[Arc<Row>], rng: &mut Rng, flip: &str,
                     out.p.add(&format!("denied_status_{}_{}", f.status, c.row.surface.name()), 1);
                 }
                 if let Some(b) = before {
+                    if flip == "state-noise" {
+                        // oracle self-test only: pretend the refused request left a trace
+                        if let Some(c) = &fx.coord {
+                            let mut g = c.write().await;
+                            g.pending_rebalance = !g.pending_rebalance;
+                        }
+                    }
                     let after = fx.snapshot().await;
                     out.p.add("state_comparisons", 1);
                     if after != b {
@@ -1487,6 +1494,10 @@ fn main() {
     let (ops, global) = parse_openapi(&yaml);
     let (mut rows, unclassified) = build_table(&ops, &global);
     rows.extend(raft_doc_table());
+    if flip == "drop-row" {
+        // probe self-test only: an existing route without a table row must be reported
+        rows.retain(|r| r.key() != "GET /api/v1/cluster/summary");
+    }
     rep.set("openapi_operations", json!(ops.len()));
     rep.set("openapi_role_operations", json!(rows.iter().filter(|r| matches!(r.need, Need::Role(_))).count()));
     rep.set("table_rows", json!(rows.len()));
